@@ -262,7 +262,7 @@ CHECKS["C02"] = {
         {"name": "wireconnector", "pkg": "internal/session", "pkgname": "session", "entry": "VerifC02WireConnector", "files": ["zz_verif_c18.go", "zz_verif_c18b.go", "zz_verif_c01.go", "zz_verif_c01idle.go", "zz_verif_c01idle2.go", "zz_verif_c01wire.go", "zz_verif_c02wire.go"],
          "with": ["state_export", "backend_export", "verifdb"], "goroutines": True, "concrete_time": True, "replay_timeout_s": 90,
          "extra_overlay": {"internal/response/zz_verif_decode.go": "internal/response/zz_verif_decode.go"},
-         "params": {"quick": grid(k=[1, 2]), "thorough": grid(k=[3, 4])},
+         "params": {"quick": grid(k=[1, 2, 3]), "thorough": grid(k=[4, 5])},
          "cover": ["wire-fresh-compared"]},
         {"name": "session", "pkg": "internal/session", "pkgname": "session", "entry": "VerifC01Session", "files": ["zz_verif_c18.go", "zz_verif_c18b.go", "zz_verif_c01.go"],
          "with": ["state_export", "backend_export", "verifdb"],
